@@ -2,7 +2,7 @@ use rten_tensor::prelude::*;
 use rten_tensor::{Tensor, TensorView};
 use smallvec::SmallVec;
 
-use crate::graph::{CaptureEnv, Graph, NodeId, RunError, RunOptions};
+use crate::graph::{CaptureEnv, Graph, Node, NodeId, RunError, RunOptions};
 use crate::infer_shapes::InferShapes;
 use crate::operator::{
     OpError, OpRunContext, Operator, OutputList, OutputTypeList, OutputTypesContext,
@@ -16,6 +16,17 @@ use crate::weight_cache::WeightCache;
 
 fn output_list_from_vec(xs: Vec<Value>) -> OutputList {
     xs.into_iter().collect()
+}
+
+/// Return true if every operator in `graph` is deterministic.
+///
+/// Operators with subgraphs report whether their subgraphs are deterministic,
+/// so this takes nested subgraphs into account.
+fn graph_is_deterministic(graph: &Graph) -> bool {
+    graph.iter().all(|(_, node)| match node {
+        Node::Operator(op) => op.operator().is_deterministic(),
+        _ => true,
+    })
 }
 
 pub struct If {
@@ -40,6 +51,12 @@ impl Operator for If {
 
     fn max_outputs(&self) -> Option<usize> {
         None
+    }
+
+    fn is_deterministic(&self) -> bool {
+        // The outputs vary between runs if either branch contains an operator
+        // (eg. a random number generator) whose outputs do.
+        graph_is_deterministic(&self.then_branch) && graph_is_deterministic(&self.else_branch)
     }
 
     fn run(&self, _ctx: &OpRunContext) -> Result<OutputList, OpError> {
@@ -138,6 +155,10 @@ impl Operator for Loop {
 
     fn max_outputs(&self) -> Option<usize> {
         None
+    }
+
+    fn is_deterministic(&self) -> bool {
+        graph_is_deterministic(&self.body)
     }
 
     fn run(&self, _ctx: &OpRunContext) -> Result<OutputList, OpError> {
